@@ -90,3 +90,28 @@ func observePay(o *Toks, p, twin payloader, mtu uint16, input []byte) {
 	twinSame := !try(func() { tw = twin.Payload(mtu, cloneBytes(input)) }) && fragsEqual(snap, tw)
 	o.Ok().BytesList(snap).Bool(inputSame).Bool(overlap).Bool(fragsStable).Bool(twinSame)
 }
+
+// PayCall is one Payload(mtu, input) call of a history.
+type PayCall struct {
+	MTU   uint16
+	Input []byte
+}
+
+// writeCalls writes `<n> (<mtu> <obytes>)*` (mirrors Proto.rdCalls).
+func writeCalls(t *Toks, calls []PayCall) {
+	t.Nat(len(calls))
+	for _, c := range calls {
+		t.Nat(int(c.MTU)).OBytes(c.Input)
+	}
+}
+
+// observePayHist runs a history of calls on ONE instance (and its pristine twin) and writes
+// `<n> PayObs*` (mirrors Proto.rdPayObsList).  After every call the caller's buffer is
+// overwritten, so state that aliases it corrupts later outputs and shows as twinSame=0.
+func observePayHist(o *Toks, mk func() payloader, calls []PayCall) {
+	p, twin := mk(), mk()
+	o.Nat(len(calls))
+	for _, c := range calls {
+		observePay(o, p, twin, c.MTU, c.Input)
+	}
+}
